@@ -232,10 +232,10 @@ def grab(text, pats):
 
 
 # (figure, regex for the printed amount, printed negated?) — EVERY place a format prints one of the figures
-MD_PATS = [('income', r'^\| Income \| (.*) \|$', False), ('spending', r'^\| Spending \| (.*) \|$', True),
-           ('credits', r'^\| Credits/Refunds \| (.*) \|$', False), ('credits', r'^\| \*\*Total\*\* \| \| \*\*(.*)\*\* \|$', False),
-           ('cash_flow', r'^\| \*\*Net Cash Flow\*\* \| (.*) \|$', False), ('transfers_in', r'^\| In \| (.*) \|$', False),
-           ('transfers_out', r'^\| Out \| (.*) \|$', False), ('transfers_net', r'^\| \*\*Net Transfers\*\* \| (.*) \|$', False)]
+MD_PATS = [('income', r'^\| Income \| ([^|]*) \|$', False), ('spending', r'^\| Spending \| ([^|]*) \|$', True),
+           ('credits', r'^\| Credits/Refunds \| ([^|]*) \|$', False), ('credits', r'^\| \*\*Total\*\* \| \| \*\*([^|]*)\*\* \|$', False),
+           ('cash_flow', r'^\| \*\*Net Cash Flow\*\* \| ([^|]*) \|$', False), ('transfers_in', r'^\| In \| ([^|]*) \|$', False),
+           ('transfers_out', r'^\| Out \| ([^|]*) \|$', False), ('transfers_net', r'^\| \*\*Net Transfers\*\* \| ([^|]*) \|$', False)]
 TXT_PATS = [('income', r'^Income:(.*)$', False), ('spending', r'^Spending:(.*)$', True), ('credits', r'^Credits/Refunds:(.*)$', False),
             ('credits', r'^TOTAL CREDITS\s(.*)$', False), ('spending', r'^TOTAL\s.*?/mo (.*)$', False),
             ('cash_flow', r'^Net Cash Flow:(.*)$', False), ('transfers_in', r'^In:(.*)$', False), ('transfers_out', r'^Out:(.*)$', False),
@@ -391,7 +391,8 @@ def compare_data(data, st, J):
         if tt_bad is None and all_listed and tt_sum != want_tt:
             tt_bad = {'sum_over_categories': tt_sum, 'analysed_totals': want_tt}
         if tt_bad is not None:
-            v.append(('C12/placeholder-in-data' if placeholder and any(JS_PH in n for n in names) else 'C12/type-totals', tt_bad))
+            v.append(('C12/placeholder-in-data' if placeholder and any(JS_PH in n and n not in {m['displayName'] for m in cvm} for n in names)
+                      else 'C12/type-totals', tt_bad))
         for cn, c in data['categoryView'].items():
             subs = list(c['subcategories'].values())
             if c['total'] != sum(s['total'] for s in subs) or c['count'] != sum(s['count'] for s in subs) or \
@@ -626,10 +627,11 @@ Definition chk_dec (p : text * option text) : bool := oeqb text_eqb (decode (fst
 (* ids *)
 Definition chk_mid (p : text * text) : bool := text_eqb (Id.make_merchant_id (fst p)) (snd p).
 Definition chk_sid (p : text * text) : bool := text_eqb (Id.section_id (fst p)) (snd p).
-(* embedding: template, css, js, data JSON, document written, its script texts, extracted data *)
-Definition chk_embed (c : text * text * text * text * text * list text * option text) : bool :=
-  let '(tpl, css, js, j, doc, scr, ext) := c in
-  text_eqb (embed tpl css js j) doc && leqb text_eqb (scan MData [] doc) scr && oeqb text_eqb (extract_script doc) ext.
+(* embedding: template, css, js, json.dumps text, data script written, document written, its script texts, extracted data *)
+Definition chk_embed (c : text * text * text * text * text * text * list text * option text) : bool :=
+  let '(tpl, css, js, j, ds, doc, scr, ext) := c in
+  text_eqb (data_script j) ds && text_eqb (embed tpl css js j) doc && leqb text_eqb (scan MData [] doc) scr
+  && oeqb text_eqb (extract_script doc) ext.
 (* category view and sections *)
 Definition X (a : Z) (tg : list text) : txn := {| t_desc := []; t_amount := a; t_month := []; t_tags := tg; t_source := []; t_extra := [] |}.
 Definition M (n c s : text) (t k : Z) (xs : list txn) : merchant := {| m_name := n; m_cat := c; m_sub := s; m_total := t; m_count := k; m_txns := xs |}.
@@ -776,19 +778,21 @@ def model_check(cases, results, strings_io, facts, tier):
         (rest if kind in seen_kinds else embeds_first).append((ln, ci))
         seen_kinds.add(kind)
     for ln, ci in embeds_first + rest:
-        if budget - 3 * ln < 0:
+        if budget - 4 * ln < 0:
             continue
-        budget -= 3 * ln
+        budget -= 4 * ln
         c, r = cases[ci], results[ci]
         h = r['html']
         J = r['data_js'][len(c12_html.DATA_PREFIX):-len(c12_html.DATA_SUFFIX)]
+        # the un-escaped json.dumps text: dumps(loads(x)) reproduces it (same encoder, key order and float repr kept)
+        J_raw = json.dumps(json.loads(J))
         if c12_html.DISAGREE_RE.search(h['doc']):
             skipped['embed_disagreement_fragment'] += 1
             scr = c12_html.scripts_browser(h['doc'])
         else:
             scr = h['scripts_hp']
         t = c['tpl']
-        embeds.append((ci, f"({ctext(t['html'])}, {ctext(t['css'])}, {ctext(t['js'])}, {ctext(J)}, {ctext(h['doc'])}, "
+        embeds.append((ci, f"({ctext(t['html'])}, {ctext(t['css'])}, {ctext(t['js'])}, {ctext(J_raw)}, {ctext(r['data_js'])}, {ctext(h['doc'])}, "
                            f"{clist(ctext(x) for x in scr)}, {copt(h['data_br'], ctext)})"))
     jobs['ids'] = ('Definition mid_cases := ' + clist(f'({ctext(a)}, {ctext(b)})' for a, b in mids.items()) + '.\n'
                    'Eval vm_compute in failing chk_mid 0 mid_cases.\n'
@@ -803,7 +807,7 @@ def model_check(cases, results, strings_io, facts, tier):
     # style sheet and script are checked below to be free of '<', placeholders and "</script")
     if facts.get('html'):
         jobs['tplok'] = ('Definition real_tpl : text := ' + ctext(facts['html']) + '.\n'
-                         'Definition tplok_cases := [tpl_ok real_tpl (cps "a{}")].\n'
+                         'Definition tplok_cases := [tpl_ok real_tpl (cps "a{}") (cps "app();")].\n'
                          'Eval vm_compute in failing (fun b : bool => b) 0 tplok_cases.\n')
     counts.update({'make_merchant_id_pairs': len(mids), 'section_id_pairs': len(sids), 'category_view_cases': len(views),
                    'json_figure_cases': len(figs), 'embed_extract_cases': len(embeds), 'skipped': skipped})
@@ -900,8 +904,10 @@ def main(tier):
         'HTML: only the script-data end rule and a tag-name scan are modelled ("</script" + whitespace, "/" or ">", ASCII case-insensitive); comments, attribute '
         'quoting and the script-data-escaped states ("<!--<script") are not; the installed html.parser (end tag = </\\s*script\\s*>) and the browser rule are '
         'both run on every rendered document, the Coq scan is compared with html.parser where the two rules cannot differ and with the browser-rule twin otherwise',
-        'the real style sheet and script are checked each run to contain no "<", no placeholder text and no "</script"; tpl_ok is evaluated in Coq on the real '
-        'spending_report.html with a stub style sheet',
+        'the real style sheet is checked each run to contain no "<" and style sheet and script no placeholder text and no "</script"; tpl_ok is evaluated in '
+        'Coq on the real spending_report.html with a stub style sheet and a stub script',
+        'the un-escaped json.dumps text handed to the model is recomputed as json.dumps(json.loads(data script)) (same encoder; a difference would show as a '
+        'broken correspondence, never hide one)',
         'str.lower is modelled for ASCII (section names with other cased letters are skipped and counted)',
         'build_section_merchants / build_category_view / export_json figure recomputation are hand-modelled and tied by correspondence; make_merchant_id, '
         'section_id, the replacement order, the data script framing and the stats-key bindings are translated from source (tools/c12_report2coq.py)',
